@@ -373,7 +373,7 @@ static void coordinator(uint64_t rounds) {
         for (int p = 0; p < g_np; ++p) remaining += left[p];
         if (remaining == 0) break;
         bool full_phase = g_npp > 0 && r.chance(1, 6);
-        uint64_t base_sent = g_sent_ret.load(vh::MO), base_started = g_sent_started.load(vh::MO);
+        uint64_t base_sent = g_sent_ret.load(vh::MO);
         c_rounds.add();
         if (!full_phase) {
             uint64_t burst = r.pick<uint64_t>({1, 1, 1, 2, r.range(1, g_cap), r.range(1, 2 * g_cap + 3)});
@@ -391,8 +391,6 @@ static void coordinator(uint64_t rounds) {
             spread_quota(r, burst, left);
             uint64_t bo0 = vh::cov(C_RINGCHAN_SENDER_BACKOFF);
             publish_round();
-            int active = 0;
-            for (int p = 0; p < g_np; ++p) active += g_p[p].round_seen.load(vh::MO) >= 0;
             // wait until nothing moves any more: all sends started that can start, consumers parked at the gate
             uint64_t last = ~0ull, stable_since = vh::mono_ns();
             uint64_t min_gap_ns = r.pick<uint64_t>({2, 5, 20, 60}) * 1000000ull;
@@ -402,7 +400,7 @@ static void coordinator(uint64_t rounds) {
                 if (cur != last) { last = cur; stable_since = now; }
                 bool all_sent = g_sent_ret.load(vh::MO) >= base_sent + burst;
                 bool slept = vh::cov(C_RINGCHAN_SENDER_BACKOFF) > bo0;
-                if (now - stable_since >= min_gap_ns && (all_sent || slept || now - stable_since >= 150000000ull)) break;
+                if (now - stable_since >= min_gap_ns && (all_sent || slept || now - stable_since >= 80000000ull)) break;
                 if (vh::n_violations()) break;
                 os_sleep_us(300);
             }
@@ -419,16 +417,16 @@ static void coordinator(uint64_t rounds) {
             }
             g_gate.store(false, std::memory_order_release);
             wait_until([&] { return g_sent_ret.load(vh::MO) >= base_sent + burst && g_recv_ret.load(vh::MO) >= base_sent + burst; });
-            (void)active; (void)base_started;
         }
         // idle gap
         bool gap = style == 0 ? r.chance(1, 16) : style == 1 ? r.chance(3, 4) : r.chance(1, 4);
         if (gap) {
-            uint64_t s0 = vh::cov(C_RINGCHAN_CONSUMER_SLEPT);
-            uint64_t t0 = vh::mono_ns(), maxw = r.pick<uint64_t>({300, 2000, 10000, 40000}) * 1000ull;
-            // long enough for the consumers to leave their yield phase and go to sleep (bounded)
-            while (vh::mono_ns() - t0 < maxw && vh::cov(C_RINGCHAN_CONSUMER_SLEPT) < s0 + (uint64_t)g_nc) os_sleep_us(100);
-            if (vh::cov(C_RINGCHAN_CONSUMER_SLEPT) >= s0 + (uint64_t)g_nc) { c_slept_observed.add(); os_sleep_us(r.pick<uint64_t>({0, 100, 1000})); }
+            uint64_t t0 = vh::mono_ns(), maxw = r.pick<uint64_t>({300, 2000, 8000, 25000}) * 1000ull;
+            // long enough for the consumers to leave their yield phase and go to sleep (bounded; a scheduling hint only:
+            // waits entered minus waits ended by a signal = consumers asleep now, as long as no wait timed out)
+            auto asleep = [] { return (int64_t)vh::cov(C_RINGCHAN_CONSUMER_SLEPT) - (int64_t)vh::cov(C_RINGCHAN_CONSUMER_SIGNALLED); };
+            while (vh::mono_ns() - t0 < maxw && asleep() < g_nc) os_sleep_us(100);
+            if (asleep() >= g_nc) { c_slept_observed.add(); os_sleep_us(r.pick<uint64_t>({0, 100, 1000})); }
             c_gap_rounds.add();
         }
     }
@@ -488,7 +486,7 @@ int main(int argc, char** argv) {
     bool engine = r.chance(1, 2);
     bool allow_cpu = A.gets("shape", "") == "";
     g_recheck_us = A.geti("recheck_us", r.chance(7, 8) ? 3000000 : 0);
-    uint64_t rounds = A.geti("rounds", A.thorough() ? 4000 : 700);
+    uint64_t rounds = A.geti("rounds", A.thorough() ? 3000 : 500);
     if (vh::is_tsan()) rounds /= 4;
     rounds /= A.shape_div();
     rounds = std::max<uint64_t>(rounds, 30);
